@@ -465,6 +465,13 @@ def classify_event(prog, pa, idx, e, root=None, failsig=()):
     if op == "sub":
         if st.rel_ge(a, b, upto=e.nfacts):
             return True, "3-subtractive-guard", ""
+        # a constant minus a bit count (count-leading/trailing-zeros, population count of an N-bit value is at most N)
+        bb = b
+        while isinstance(bb, tuple) and bb[0] == "cast":
+            bb = bb[3]
+        if is_const(a) and isinstance(bb, tuple) and bb[0] == "call" and bb[1].startswith(("llvm.ctlz.i", "llvm.cttz.i", "llvm.ctpop.i")):
+            if a[1] >= int(bb[1].rsplit(".i", 1)[1]):
+                return True, "0-bounded", ""
         if b == ("c", 0):
             return True, "0-constant", ""
     # 7: slot post-increment: the same value indexed a slot store on this path
